@@ -22,6 +22,7 @@ import (
 func Run(c *lib.Ctx) {
 	c.Rule = "a step-controlled case is non-trivial when it contains at least one release from a yield point; distinct by its full action/observation trace"
 	c.Assumptions = []string{
+		"exit races (race.go): that AddExitHook is atomic with respect to Exit (one step in Uniflow.Local / PortMaps / AgentProc) is tied to the code by C04's regenerated process.go facts (Props/C05Tie.lean) and searched for failing inputs by brute force – 3–5 hook-registering operations and Exit released together behind a spin barrier on >= 4 CPUs, 30k trials quick / 300k thorough; a window narrower than the scheduler can hit in that many trials would be missed",
 		"Go's sync.Mutex / RWMutex / channels behave as the atomic-step semantics of Uniflow.Local (a critical section is one step; RLock sections are atomic)",
 		"user call-outs (initialisers, store hooks, foreign exit hooks) terminate and do not call back into the same Local",
 		"the verif yield hook of pkg/process is called exactly at the five documented sites and nowhere under a lock",
@@ -94,6 +95,9 @@ func Run(c *lib.Ctx) {
 	// ---- 3. ports, 4. workflows
 	ms = append(ms, runPorts(c, rng, &fails)...)
 	ms = append(ms, runFlows(c, rng, &fails)...)
+
+	// ---- 5. hook-registering operations racing with Exit on several CPUs
+	runExitRaces(c, rng.Fork(), &fails)
 
 	c.Conclude("Uniflow.Local / Uniflow.PortMaps vs pkg/process.Local, pkg/port", ms, fails)
 }
